@@ -48,7 +48,8 @@ RULE = ("E-PROD (ift): dimension n (2,3; thorough also 5) x parameter point (ful
         "single node x component x {+-1e-3, +-0.1}.")
 ASSUMPTIONS = [
     "sksparse stand-in in /verif/shim (dense Cholesky) is the preconditioner used by the forward and the adjoint solve",
-    "energy family E(x;p) = 1/2 x'(A+diag(p2))x + 1/4 c4 sum x^4 - (B p0).x - sin(p4)(w.x) + 1/2 (x.C p1)^2 - (D p2).x (the last "
+    "energy family E(x;p) = 1/2 x'(A+diag(p2))x + 1/4 c4 sum x^4 - s(B p0).x - sin(p4)(w.x) + 1/2 (x.C p1)^2 - (D p2).x with "
+    "s = 1 + a1.p1 + a2.p2 + 0.3 sin(p4) (so that the bc Jacobian -sB depends on the state, design and time slots) (the last "
     "term is added to the design's family so that the design Jacobian diag(x)-D is not symmetric and a transposed product is seen), A SPD with "
     "spectrum logspace(0,2,n) in a generic (seed) eigenbasis, so the Hessian is SPD with condition <= 1e3 on the alphabet "
     "(the property's premise: non-singular Hessian at the solution); c4 is carried in Params.app_data (slot 3, never "
@@ -228,7 +229,10 @@ def _data(n, seed):
     M = 0.7 * rng.uniform(-1, 1, size=(k1, n))
     w = onp.cos(onp.arange(n) + 1.0)
     D = 0.5 * rng.uniform(-1, 1, size=(n, n))
-    return {"A": A, "B": B, "C": C, "M": M, "w": w, "D": D, "n": n, "k0": k0, "k1": k1, "c4": 0.0}
+    a1 = onp.array([0.7, -0.4])
+    a2 = 0.25 * onp.cos(onp.arange(n) + 0.3) / n
+    return {"A": A, "B": B, "C": C, "M": M, "w": w, "D": D, "n": n, "k0": k0, "k1": k1, "c4": 0.0,
+            "a1": a1, "a2": a2, "mu": 0.3}
 
 
 def _raw_energy(d):
@@ -236,8 +240,17 @@ def _raw_energy(d):
     import jax.numpy as jnp
     A, B, C, w, D = jnp.array(d["A"]), jnp.array(d["B"]), jnp.array(d["C"]), jnp.array(d["w"]), jnp.array(d["D"])
 
+    a1, a2, mu = jnp.array(d["a1"]), jnp.array(d["a2"]), d["mu"]
+
     def f(x, p):
-        e = 0.5 * x @ (A @ x) + 0.25 * p[3] * jnp.sum(x ** 4) - (B @ p[0]) @ x
+        s = 1.0                       # bc load factor: couples the bc slot to every other slot that is present
+        if p[1] is not None:
+            s = s + a1 @ p[1]
+        if p[2] is not None:
+            s = s + a2 @ p[2]
+        if p[4] is not None:
+            s = s + mu * jnp.sin(p[4])
+        e = 0.5 * x @ (A @ x) + 0.25 * p[3] * jnp.sum(x ** 4) - s * ((B @ p[0]) @ x)
         if p[2] is not None:
             e = e + 0.5 * x @ (jnp.diag(p[2]) @ x) - (D @ p[2]) @ x
         if p[4] is not None:
